@@ -13,11 +13,24 @@
 //   P:<value strings>:<aux>                                     the write panicked
 //   D:<avail>:<payload hex,..|->       P                        (drain / drain panicked)
 //   N                                                           PayloadWriter::new panicked
+// Further case kinds (first token a letter):
+//   B <op> ...        DogStatsDBuilder through its public API: a:<addr hex> = with_remote_address, m:<n> =
+//                     with_maximum_payload_length; then the cfg(metrics_verif) hook verif_forwarder_config() (what build()
+//                     validates and hands to the forwarder).  Output: A:<ok|es|er>:<rp>:<rw>  M:<ok|ec>
+//                     C:<transport id>:<max>:<lp>:<display hex> | C:ec ; stops at the first error (the builder is
+//                     consumed).  rp/rw: whether std's to_socket_addrs accepts the text after the first "://" / the
+//                     whole text (oracle data for the model; `-` if there is no "://").
+//   F <aggressive> <dist> <max> <lp> <+prefix|-> <glabels|-> <now> | c:<name>:<labels>:<inc,inc..>
+//                     g:<name>:<labels>:<f64 bits> h:<name>:<labels>:<f64 bits>:<count>
+//                     one flush of State through verif_state_driver::Driver (at most one metric per kind).
+//                     Output: F:<payload hex,..|-> V:<value string hex> per metric in input order, T:<now string hex>
 // The value/aux strings are what itoa/ryu (the crates the writer uses) produce for the op's numbers; the
 // check feeds them to the Coq model as data.
 use metrics::{Key, Label};
 use metrics_exporter_dogstatsd::verif_driver::Writer;
+use metrics_exporter_dogstatsd::{verif_state_driver, BuildError, DogStatsDBuilder};
 use std::io::{BufRead, Write as _};
+use std::net::ToSocketAddrs;
 use std::panic::{catch_unwind, AssertUnwindSafe};
 
 fn unhex(s: &str) -> Vec<u8> {
@@ -65,7 +78,126 @@ fn opt_hex(v: &Option<Vec<u8>>) -> String {
     }
 }
 
+fn run_builder(line: &str) -> String {
+    let mut out: Vec<String> = Vec::new();
+    let mut b = DogStatsDBuilder::default();
+    for tok in line.split_whitespace().skip(1) {
+        let (k, v) = tok.split_once(':').unwrap();
+        match k {
+            "a" => {
+                let addr = unhex_str(v);
+                let rw = addr.as_str().to_socket_addrs().is_ok();
+                let rp = match addr.find("://") {
+                    Some(i) => if addr[i + 3..].to_socket_addrs().is_ok() { "1" } else { "0" },
+                    None => "-",
+                };
+                match b.with_remote_address(&addr) {
+                    Ok(nb) => {
+                        b = nb;
+                        out.push(format!("A:ok:{}:{}", rp, rw as u8));
+                    }
+                    Err(BuildError::InvalidRemoteAddress { reason }) => {
+                        let kind = if reason.starts_with("invalid scheme") { "es" } else { "er" };
+                        out.push(format!("A:{}:{}:{}", kind, rp, rw as u8));
+                        return out.join(" ");
+                    }
+                    Err(_) => {
+                        out.push(format!("A:ec:{}:{}", rp, rw as u8));
+                        return out.join(" ");
+                    }
+                }
+            }
+            "m" => match b.with_maximum_payload_length(v.parse().unwrap()) {
+                Ok(nb) => {
+                    b = nb;
+                    out.push("M:ok".to_string());
+                }
+                Err(_) => {
+                    out.push("M:ec".to_string());
+                    return out.join(" ");
+                }
+            },
+            _ => panic!("bad builder op {}", tok),
+        }
+    }
+    match b.verif_forwarder_config() {
+        Ok((tid, disp, max, lp)) => out.push(format!("C:{}:{}:{}:{}", tid, max, lp as u8, hex(disp.as_bytes()))),
+        Err(_) => out.push("C:ec".to_string()),
+    }
+    out.join(" ")
+}
+
+fn run_flush(line: &str) -> String {
+    let (head, ops) = line.split_once('|').unwrap();
+    let hs: Vec<&str> = head.split_whitespace().collect();
+    let aggressive = hs[1] == "1";
+    let config = verif_state_driver::Config {
+        aggressive,
+        histogram_sampling: false,
+        histogram_reservoir_size: 1024,
+        histograms_as_distributions: hs[2] == "1",
+        global_labels: labels_of(hs[6]),
+        global_prefix: if hs[5] == "-" { None } else { Some(unhex_str(&hs[5][1..])) },
+        max_payload_len: hs[3].parse().unwrap(),
+        length_prefixed: hs[4] == "1",
+    };
+    let now: u64 = hs[7].parse().unwrap();
+    let mut vals: Vec<String> = Vec::new();
+    let r = catch_unwind(AssertUnwindSafe(|| {
+        let mut d = verif_state_driver::Driver::new(config);
+        for tok in ops.split_whitespace() {
+            let f: Vec<&str> = tok.split(':').collect();
+            let key = Key::from_parts(unhex_str(f[1]), labels_of(f[2]));
+            match f[0] {
+                "c" => {
+                    let c = d.counter(&key);
+                    let mut sum: u64 = 0;
+                    if f[3] != "-" {
+                        for inc in f[3].split(',') {
+                            let v: u64 = inc.parse().unwrap();
+                            c.increment(v);
+                            sum = sum.wrapping_add(v);
+                        }
+                    }
+                    vals.push(hex(&fmt_u64(sum)));
+                }
+                "g" => {
+                    let v = f64_of(f[3]);
+                    d.gauge(&key).set(v);
+                    vals.push(hex(&fmt_f64(v)));
+                }
+                "h" => {
+                    let v = f64_of(f[3]);
+                    let h = d.histogram(&key);
+                    for _ in 0..f[4].parse::<usize>().unwrap() {
+                        h.record(v);
+                    }
+                    vals.push(hex(&fmt_f64(v)));
+                }
+                _ => panic!("bad flush op {}", tok),
+            }
+        }
+        d.flush_once(now).0
+    }));
+    let mut out = Vec::new();
+    match r {
+        Ok(ps) => out.push(format!("F:{}", hexlist(&ps))),
+        Err(_) => out.push("P".to_string()),
+    }
+    for v in vals {
+        out.push(format!("V:{}", v));
+    }
+    out.push(format!("T:{}", hex(&fmt_u64(now))));
+    out.join(" ")
+}
+
 fn run_case(line: &str) -> String {
+    if line.starts_with("B") {
+        return run_builder(line);
+    }
+    if line.starts_with("F") {
+        return run_flush(line);
+    }
     let (head, ops) = line.split_once('|').unwrap();
     let mut hs = head.split_whitespace();
     let max: usize = hs.next().unwrap().parse().unwrap();
